@@ -60,7 +60,14 @@ var (
 
 type c12ErrColl struct{}
 
-func (c12ErrColl) Collect(_ context.Context, err error) { vrt.Fatalf("collected error: %v", err) }
+func (c12ErrColl) Collect(_ context.Context, err error) {
+	if !c12ExpectErr {
+		vrt.Fatalf("collected error: %v", err)
+	}
+}
+
+// c12ExpectErr is set while a refresh that is meant to fail runs.
+var c12ExpectErr bool
 
 // c12Files are the cache files created for the current case; they are removed
 // when the case is over, so that the scratch directory stays small however
@@ -168,7 +175,9 @@ type c12Subject interface {
 
 // Hash-prefix filter.
 type c12HP struct {
-	f *hashprefix.Filter
+	f    *hashprefix.Filter
+	strg *hashprefix.Storage
+	repl string
 }
 
 func c12NewHP(repl string) c12Subject {
@@ -176,6 +185,15 @@ func c12NewHP(repl string) c12Subject {
 	if err != nil {
 		vrt.Fatalf("storage: %v", err)
 	}
+	s := c12NewHPOver(strg, repl)
+	s.refresh()
+
+	return s
+}
+
+// c12NewHPOver returns a hash-prefix filter over strg that has not been
+// refreshed: its result cache is empty and it has changed nothing in strg.
+func c12NewHPOver(strg *hashprefix.Storage, repl string) *c12HP {
 	rc := c12RefrConf(internal.IDSafeBrowsing, "hp")
 	f, err := hashprefix.NewFilter(&hashprefix.FilterConfig{
 		Logger: c12Logger, Cloner: c12Cloner, CacheManager: agdcache.EmptyManager{}, Hashes: strg,
@@ -186,11 +204,14 @@ func c12NewHP(repl string) c12Subject {
 	if err != nil {
 		vrt.Fatalf("hashprefix filter: %v", err)
 	}
-	s := &c12HP{f: f}
-	s.refresh()
-
-	return s
+	return &c12HP{f: f, strg: strg, repl: repl}
 }
+
+// coldTwin returns a filter with an empty result cache over the same hashes.
+func (s *c12HP) coldTwin() *c12HP { return c12NewHPOver(s.strg, s.repl) }
+
+// tryRefresh is refresh for list data that may be rejected.
+func (s *c12HP) tryRefresh() error { return s.f.Refresh(context.Background()) }
 
 func (s *c12HP) refresh() {
 	if err := s.f.Refresh(context.Background()); err != nil {
@@ -475,6 +496,69 @@ func TestVerifC12(t *testing.T) {
 			})
 		}
 	}, func(c c12Case) []vrt.Finding { return c12RunCase(r, parts, c) })
+
+	// Refreshes that FAIL part-way (some valid lines, then a line longer than
+	// the scanner accepts): whatever such a refresh leaves in the hash storage,
+	// the result cache must not show: every answer of the warm filter equals
+	// the answer of a filter with an empty cache over the same storage.
+	fdepth := vrt.Pick(r, 4, 5)
+	r.Bound("failed_refresh_history_depth", fdepth)
+	hpVersions := []string{"danger.test\n# comment\nother-danger.test\n", "fresh2.test\nother-danger.test\n", "fresh2.test\n" + strings.Repeat("a", 70000) + "\ndanger.test\n"}
+	vrt.Part(r, "hashprefix-failed-refresh", func(emit func(c12Case)) {
+		alpha := []c12Event{{Refresh: 0}, {Refresh: 1}, {Refresh: 2}}
+		for _, h := range []string{"danger.test", "fresh2.test"} {
+			for _, qt := range []uint16{dns.TypeA, dns.TypeTXT} {
+				for ri := 0; ri < 2; ri++ {
+					alpha = append(alpha, c12Event{Refresh: -1, Req: ri, Host: h, QType: qt})
+				}
+			}
+		}
+		vrt.Sequences(len(alpha), 2, fdepth, func(seq []int) {
+			if alpha[seq[len(seq)-1]].Refresh >= 0 {
+				return
+			}
+			bad := false
+			c := c12Case{Part: "hashprefix-failed-refresh"}
+			for _, i := range seq {
+				bad = bad || alpha[i].Refresh == 2
+				c.Events = append(c.Events, alpha[i])
+			}
+			if bad {
+				emit(c)
+			}
+		})
+	}, func(c c12Case) []vrt.Finding {
+		defer c12Cleanup()
+		c12Lists["hp"] = hpVersions[0]
+		warm := c12NewHP("192.0.2.66").(*c12HP)
+		var obs []string
+		for i, e := range c.Events {
+			if e.Refresh >= 0 {
+				c12Lists["hp"] = hpVersions[e.Refresh]
+				c12ExpectErr = e.Refresh == 2
+				err := warm.tryRefresh()
+				c12ExpectErr = false
+				r.Trans(1)
+				if (err != nil) != (e.Refresh == 2) {
+					vrt.Fatalf("c12: refresh to version %d: unexpected outcome %v", e.Refresh, err)
+				}
+
+				continue
+			}
+			rq := c12Requesters[e.Req]
+			got := warm.query(rq, e.Host, e.QType)
+			want := warm.coldTwin().query(rq, e.Host, e.QType)
+			r.Trans(2)
+			obs = append(obs, got)
+			r.Class("hashprefix-failed-refresh " + strings.SplitN(got, " ", 2)[0])
+			if got != want {
+				return vrt.F("hashprefix-failed-refresh/warm-differs-from-cold-cache", "step %d, requester %s asks %s %s:\n   filter with its cache       : %s\n   empty cache, same storage: %s\n   history (refresh 2 is the one that fails): %+v", i, rq.name, e.Host, dns.Type(e.QType), got, want, c.Events)
+			}
+		}
+		r.State("hpfail" + strings.Join(obs, "\n"))
+
+		return nil
+	})
 
 	cdepth := vrt.Pick(r, 5, 6)
 	r.Bound("custom_history_depth", cdepth)
